@@ -197,7 +197,7 @@ func TestC14(t *testing.T) {
 			if mode == "close" {
 				closeFlag = "1"
 			}
-			cmd := exec.Command(bin, db, ackFile, strconv.FormatUint(seed, 10), strconv.Itoa(nOps), closeFlag, strconv.Itoa(rng.IntN(8)))
+			cmd := exec.Command(bin, db, ackFile, strconv.FormatUint(seed, 10), strconv.Itoa(nOps), closeFlag, strconv.Itoa(rng.IntN(32)))
 			cmd.Stderr = os.Stderr
 			if err := cmd.Start(); err != nil {
 				t.Fatal(err)
